@@ -19,17 +19,19 @@ Definition opt_take (p : char -> bool) (s : str) : list (option char * str) :=
   | [] => [(None, s)]
   end.
 
-(* the colon-splitting regex of to_str, used with re.match: group 1 = optional any char, optional sign,
-   optional alignment char, digits; group 2 = optional ':' followed by anything; returns
-   (group 1, group 2 without its colon) *)
+(* the colon-splitting regex of to_str (as repaired, F25), used with re.match:
+   group 1 = optionally (optional any char, optional sign, alignment char), then digits;
+   group 2 = optional ':' followed by anything; returns (group 1, group 2 without its colon) *)
 Definition split_spec (spec : str) : option (str * option str) :=
+  let finish (s3 : str) := let '(d, rest) := span_digits s3 in (length spec - length rest, rest) in
   let tries :=
     flat_map (fun '(f, s1) =>
       flat_map (fun '(sg, s2) =>
-        map (fun '(al, s3) =>
-               let '(d, rest) := span_digits s3 in
-               (length spec - length rest, rest)) (opt_take is_align s2))
-        (opt_take is_sign s1)) (opt_take (fun _ => true) spec) in
+        match s2 with
+        | c :: s3 => if is_align c then [finish s3] else []
+        | [] => [] end)
+        (opt_take is_sign s1)) (opt_take (fun _ => true) spec)
+    ++ [finish spec] in
   match List.find (fun '(n, rest) => match rest with [] => true | c :: _ => (c =? CH_COLON)%N end) tries with
   | Some (n, rest) => Some (firstn n spec, match rest with [] => None | _ :: r => Some r end)
   | None => None
